@@ -258,7 +258,7 @@ def main():
             chk.violation("bias %s stores %d bytes for %d elements of %d bits" % (where, len(raw), n, bits), dict(rep, clause="length", tensor=tp["name"]))
             continue
           ent["vec"] = b2.add({"kind": "bias", "b": [numeric.pair(numeric.frac(x)) for x in data.flatten()], "sin": numeric.pair(pin[0][1]),
-                               "sw": [numeric.pair(w[1]) for w in pw], "ch": ch, "codes": [int(c) if abs(int(c)) < 2**31 else 2**31 - 1 for c in codes],
+                               "sw": [numeric.pair(w[1]) for w in pw], "ch": ch, "codes": [numeric.big(int(c)) for c in codes],
                                "sat": [bool(abs(int(c)) >= lim) for c in codes]})
         else:
           qd_ = exp.get("qd")
